@@ -122,7 +122,7 @@ func (p *parsing) parseFuncParameters(tok token, isMacro, isResult bool) ([]*ast
 			return nil, false, nil, tok
 		}
 		switch tok.typ {
-		case tokenLeftBracket, tokenFunc, tokenIdentifier, tokenInterface, tokenMap, tokenMultiplication, tokenStruct, tokenChan:
+		case tokenLeftBracket, tokenFunc, tokenIdentifier, tokenInterface, tokenMap, tokenMultiplication, tokenStruct, tokenChan, tokenArrow:
 			var expr ast.Expression
 			expr, tok = p.parseExpr(tok, false, false, true, true)
 			return []*ast.Parameter{ast.NewParameter(nil, expr)}, false, expr.Pos(), tok
